@@ -297,10 +297,10 @@ Definition handle_tp (r:rnode) (pgn src dst len:Z) (buf:list Z) : bool * rnode *
   else (false, r, [], mx).
 
 (* ---------- SetN2kCANBufMsg ---------- *)
-Fixpoint find_cont (slots:list slot) (pgn src:Z) (i:Z) : Z :=
+Fixpoint find_cont (slots:list slot) (pgn src dst:Z) (i:Z) : Z :=
   match slots with
   | [] => i
-  | s :: rest => if (s_pgn s =? pgn) && (s_src s =? src) && negb (s_tp s) then i else find_cont rest pgn src (i+1)
+  | s :: rest => if (s_pgn s =? pgn) && (s_src s =? src) && (s_dst s =? dst) && negb (s_tp s) then i else find_cont rest pgn src dst (i+1)
   end.
 Definition mark_ready (r:rnode) (idx:Z) : rnode * Z :=
   let r := chk_slot r idx in
@@ -320,7 +320,7 @@ Definition rx_frame (r:rnode) (f:rxframe) : rnode * list event * Z :=
   let '(known, sys, fast) := check_known (n_pgn (rn r)) pgn in
   if negb (known || negb (c_only_known (r_cfg r))) then (r, [], mx) else
   if fast && negb (Z.land (byte buf 0) 31 =? 0) then
-    let i := find_cont (r_slots r) pgn src 0 in
+    let i := find_cont (r_slots r) pgn src dst 0 in
     if i <? mx then
       let s := get_slot r i in
       if s_last s + 1 =? byte buf 0 then
